@@ -22,7 +22,7 @@ OUTSIDE = ['lookAt with the target exactly above/below the viewing pose: the lib
            'and R = Rodrigues(Log R))']
 ASSUMPTIONS = ['summary mode (see C01)']
 EXPLORER_DEFAULTS = {'quick': dict(prove_timeout_ms=45000, time_budget_s=900, max_paths=300),
-                     'thorough': dict(prove_timeout_ms=180000, time_budget_s=3000, max_paths=2000)}
+                     'thorough': dict(prove_timeout_ms=180000, time_budget_s=1200, max_paths=2000)}
 TOL = '1e-8'
 
 
